@@ -59,6 +59,7 @@ var (
 	fChild = flag.Bool("child", false, "run as the contained child")
 	fOps   = flag.Int("ops", 12, "operations per history / goroutine")
 	fMode  = flag.String("mode", "", "sub-driver specific scenario family")
+	fFirst = flag.Int("first", 0, "first history index (parent): histories first .. n-1 are run")
 )
 
 type subdriver func(tr *tracer, idx int, seed int64)
@@ -119,7 +120,7 @@ func lastIdx(path string) int {
 
 func parent() {
 	os.Remove(*fOut)
-	from := 0
+	from := *fFirst
 	crashes := 0
 	for from < *fN {
 		args := []string{"-child", "-sub", *fSub, "-seed", fmt.Sprint(*fSeed), "-n", fmt.Sprint(*fN), "-from", fmt.Sprint(from),
@@ -185,7 +186,7 @@ func tail(s string, n int) string {
 	return s
 }
 
-var reFrame = regexp.MustCompile(`(?m)^github\.com/cenkalti/rain/v2/internal/([a-z]+)\.([^\n(]*(?:\([^\n)]*\))?[^\n(]*)\(`)
+var reFrame = regexp.MustCompile(`(?m)^github\.com/cenkalti/rain/v2/(?:internal/)?([a-z]+)\.([^\n(]*(?:\([^\n)]*\))?[^\n(]*)\(`)
 
 // panicInfo extracts the panic message and the first frames inside rain's internal packages (not the harness).
 func panicInfo(stderr string) (string, string) {
